@@ -205,6 +205,7 @@ Definition eval_cond (c : cond) (f : frame) (s : shared) : list (bool * frame) :
   | CNotTimerStop => map (fun bf : bool * frame => (negb (fst bf), snd bf)) (timer_stop f)
   | CBufNonEmpty => [(bufptr s, f)]
   | CPeekPositive => [(negb (Nat.eqb (readable s) 0), f)]
+  | CHasData => [(bufptr s || negb (Nat.eqb (readable s) 0), f)]
   | CRoom => [(room s, f)]
   | CNotOnce => [(negb (f_once f), f)]
   | CData => [(true, f); (false, f)]
